@@ -14,43 +14,6 @@ func nondetBytes(n int) []byte {
 	return b
 }
 
-func cloneBytes(b []byte) []byte {
-	c := make([]byte, len(b))
-	copy(c, b)
-	return c
-}
-
-func isL(b byte) bool  { return vor(vand('a' <= b, b <= 'z'), vand('A' <= b, b <= 'Z')) }
-func isD(b byte) bool  { return vand('0' <= b, b <= '9') }
-func isHi(b byte) bool { return b >= 0x80 }
-
-// classOK reports (without forking) whether b lies in the named class.
-func classOK(b byte, cls byte) bool {
-	switch cls {
-	case 'A':
-		return true
-	case 'L':
-		return isL(b)
-	case 'D':
-		return isD(b)
-	case 'H':
-		return isHi(b)
-	case 'E':
-		return vor(b == '\n', b == '\r')
-	case 'S':
-		return vor(b == ' ', b == '\t')
-	case 'W':
-		return vor(vor(b == ' ', b == '\t'), vor(b == '\n', b == '\r'))
-	case 'P':
-		return vor(vor(vand('!' <= b, b <= '/'), vand(':' <= b, b <= '@')), vor(vand('[' <= b, b <= '`'), vand('{' <= b, b <= '~')))
-	case 'X': // no line ending
-		return vand(b != '\n', b != '\r')
-	case 'T': // tab-free, no CR
-		return vand(b != '\t', b != '\r')
-	}
-	panic("bad class")
-}
-
 // tmplBytes expands a template: literal bytes are concrete, "\xff<class>" is one
 // symbolic byte of that class, "\xfe<chars>\xfe" one symbolic byte from the set.
 func tmplBytes(t string) []byte {
@@ -164,28 +127,6 @@ func kindName(n Node) string {
 		return "inline?"
 	}
 	return "nil"
-}
-
-func itoa(n int) string {
-	if n == 0 {
-		return "0"
-	}
-	neg := n < 0
-	if neg {
-		n = -n
-	}
-	var b [24]byte
-	i := len(b)
-	for n > 0 {
-		i--
-		b[i] = byte('0' + n%10)
-		n /= 10
-	}
-	if neg {
-		i--
-		b[i] = '-'
-	}
-	return string(b[i:])
 }
 
 // dumpTree appends a canonical description of the tree below n (kinds, spans,
